@@ -46,4 +46,23 @@ def decodeHybridAux (w : Nat) : Nat → Nat → List Nat → List Nat → List N
 def decodeHybrid (w n : Nat) (bs : List Nat) : List Nat :=
   (decodeHybridAux w (bs.length + 1) n bs []).take n
 
+/-- Grammar-level framing of a hybrid stream holding `n` values: every run a decoder consumes to
+    obtain them is present in full — header, and the whole payload it announces (`⌈w/8⌉` bytes for an
+    RLE run, `groups·w` bytes for a bit-packed run: "we always bit-pack a multiple of 8 values at a
+    time").  Values announced beyond `n` are padding and must still be backed by bytes.
+    `fuel` bounds the number of runs. -/
+def hybridCompleteAux (w : Nat) : Nat → Nat → List Nat → Nat → Bool
+  | 0, _, _, _ => false
+  | fuel + 1, n, bs, got =>
+    if got ≥ n then true else
+    match uvarintDec bs with
+    | none => false
+    | some (h, rest) =>
+      if h % 2 = 0 then
+        decide ((w + 7) / 8 ≤ rest.length) && hybridCompleteAux w fuel n (rest.drop ((w + 7) / 8)) (got + h / 2)
+      else
+        decide (h / 2 * w ≤ rest.length) && hybridCompleteAux w fuel n (rest.drop (h / 2 * w)) (got + h / 2 * 8)
+
+def hybridTight (w n : Nat) (bs : List Nat) : Bool := hybridCompleteAux w (bs.length + 1) n bs 0
+
 end PqV.Spec
